@@ -58,6 +58,13 @@ def real_thread_run(cfg, tier, seed, results, broken, log):
         f"mt_real lzma2w 2 text:{seed}:w9000 1 {rep}",
         f"mt_real lzipw 4 text:{seed}:w4096+w4096+w1 end {rep}",
         f"mt_real lzipw 1 text:{seed}:- end {rep}",
+        # finish() over a sink whose flush() fails, then drop: the error is reported and no worker stays behind
+        f"mt_real lzma2wf 3 text:{seed}:w9000 end {max(rep // 3, 5)}",
+        f"mt_real lzipwf 2 text:{seed}:w9000 end {max(rep // 3, 5)}",
+        f"mt_real lzipwf 2 text:{seed}:- end {max(rep // 3, 5)}",
+        # more members than the thread limit, and a request far above the limit (clamped to 256 by the crate)
+        f"mt_real lziprm 1000 300 end 2",
+        f"mt_real lziprm 257 300 end 2",
     ]
     open(f"{d}/cmds.txt", "w").write("\n".join(lines) + "\n")
     hb = fw.harness_bin("release", "nohook")
